@@ -15,9 +15,12 @@ package server
 import (
 	"errors"
 	"fmt"
+	"io"
+	"net"
 	"os"
 	"sort"
 	"strings"
+	"syscall"
 	"testing"
 	"time"
 
@@ -47,6 +50,62 @@ var (
 	c07ErrRead   = errors.New("c07: socket read error")
 	c07ErrClosed = errors.New("c07: use of closed socket")
 )
+
+// Error IDENTITY is a dimension of the fault sequences: the errors above are plain errors.New values
+// that match nothing, while the errors real sockets and the real QUIC connection hand out carry
+// identities that code can (and does) test with errors.Is / errors.As. In scenarios with fKinds every
+// injected fault is one environment choice among the plain error and the identities below; whatever
+// the identity, an error that ends a session closes its socket exactly once, removes it from the table
+// and logs one Close event (the ordinary close-once / leak / events oracles judge it). Added after the
+// independently seeded change C07-12 (CloseWithErr skipped conn.Close() when the closing error
+// matched net.ErrClosed, "the socket is closed already": every quic-go connection-closed error
+// unwraps to net.ErrClosed, so a reply relayed on a lost connection removed the session and left its
+// outbound socket open).
+type c07ErrKind struct {
+	name string
+	mk   func(op string) error
+}
+
+// errors of an outbound UDP socket (dial, read, write)
+var c07SockErrKinds = []c07ErrKind{
+	{"net.ErrClosed", func(op string) error { return &net.OpError{Op: op, Net: "udp", Err: net.ErrClosed} }},
+	{"deadline-exceeded", func(op string) error { return &net.OpError{Op: op, Net: "udp", Err: os.ErrDeadlineExceeded} }},
+	{"io.EOF", func(op string) error { return io.EOF }},
+	{"errno", func(op string) error {
+		return &net.OpError{Op: op, Net: "udp", Err: os.NewSyscallError(op, syscall.ECONNREFUSED)}
+	}},
+}
+
+// errors of SendDatagram on the client's QUIC connection: what quic-go returns once the connection is
+// closed by the peer / by a transport error / by its idle timeout / by a stateless reset
+var c07SendErrKinds = []c07ErrKind{
+	{"quic.ApplicationError", func(string) error { return &quic.ApplicationError{Remote: true, ErrorCode: 0x100} }},
+	{"quic.TransportError", func(string) error { return &quic.TransportError{Remote: true, ErrorCode: quic.InternalError} }},
+	{"quic.IdleTimeoutError", func(string) error { return &quic.IdleTimeoutError{} }},
+	{"quic.StatelessResetError", func(string) error { return &quic.StatelessResetError{} }},
+}
+
+// c07Fault is the choice point of one injectable fault: 0 = no fault (nil), 1 = the plain error, and in
+// scenarios with fKinds 2.. = the identities of kinds. extra further alternatives are left to the caller
+// (returned as -1, -2, ...).
+func (w *c07World) c07Fault(tag, op string, plain error, kinds []c07ErrKind, extra int) (error, int) {
+	n := 2 + extra
+	if w.sc.fKinds {
+		n += len(kinds)
+	}
+	c := w.e.Choose(n, vsched.KEnv, tag)
+	switch {
+	case c == 0:
+		return nil, 0
+	case c == 1:
+		return plain, 0
+	case c < 2+extra:
+		return nil, -(c - 1)
+	}
+	k := kinds[c-2-extra]
+	w.logf("%s fault identity %s", tag, k.name)
+	return k.mk(op), 0
+}
 
 // ---------------------------------------------------------------------------------------------
 // scenario description
@@ -84,6 +143,7 @@ type c07Scn struct {
 	fSlow    bool    // UDP() may take longer than the idle timeout (choice point): a slow dial
 	fWrite   bool    // socket WriteTo may fail (choice point)
 	fSend    bool    // SendMessage may fail / report DatagramTooLarge (choice point)
+	fKinds   bool    // every fault above and every scripted socket read error is a choice among error identities (c07ErrKind)
 	quick    explore.Bounds
 	thorough explore.Bounds
 	twin     explore.Bounds // thorough tier: second exploration of the same body under delay bounding (P == 0: none)
@@ -385,11 +445,12 @@ func (io *c07IO) SendMessage(buf []byte, msg *protocol.UDPMessage) error {
 		w.e.Fail("C07 isolation: reply payload of session %d altered", r.sock.session)
 	}
 	if w.sc.fSend && msg.FragCount == 1 {
-		switch w.e.Choose(3, vsched.KEnv, "send") {
-		case 1:
+		err, x := w.c07Fault("send", "send", c07ErrSend, c07SendErrKinds, 1)
+		switch {
+		case err != nil:
 			w.logf("send FAULT error")
-			return c07ErrSend
-		case 2:
+			return err
+		case x == -1:
 			w.logf("send FAULT too large")
 			// header is 8 + varint + addr; leave room for 5 payload bytes -> 2 fragments of an 8 byte payload
 			return &quic.DatagramTooLargeError{MaxDatagramPayloadSize: int64(msg.HeaderSize() + 5)}
@@ -428,10 +489,12 @@ func (io *c07IO) UDP(reqAddr string) (UDPConn, error) {
 		w.e.Sleep(c07Timeout + 3*int64(time.Second)/2)
 		w.dialing--
 	}
-	if w.sc.fDial && w.e.Choose(2, vsched.KEnv, "dial") == 1 {
-		d.dialFlt = true
-		w.logf("dial s%d %s FAULT", d.id, reqAddr)
-		return nil, c07ErrDial
+	if w.sc.fDial {
+		if err, _ := w.c07Fault("dial", "dial", c07ErrDial, c07SockErrKinds, 0); err != nil {
+			d.dialFlt = true
+			w.logf("dial s%d %s FAULT", d.id, reqAddr)
+			return nil, err
+		}
 	}
 	s := &c07Sock{w: w, idx: len(w.socks), session: d.id, addr: reqAddr, dg: d, mkSeq: w.next()}
 	p := w.peek(d.id)
@@ -526,11 +589,13 @@ func (s *c07Sock) WriteTo(b []byte, addr string) (int, error) {
 		w.logf("sock%d write %.1q -> closed", s.idx, b)
 		return 0, c07ErrClosed
 	}
-	if w.sc.fWrite && w.e.Choose(2, vsched.KEnv, "write") == 1 {
-		rec.res = "fault"
-		s.writes = append(s.writes, rec)
-		w.logf("sock%d write %.1q FAULT", s.idx, b)
-		return 0, c07ErrWrite
+	if w.sc.fWrite {
+		if err, _ := w.c07Fault("write", "write", c07ErrWrite, c07SockErrKinds, 0); err != nil {
+			rec.res = "fault"
+			s.writes = append(s.writes, rec)
+			w.logf("sock%d write %.1q FAULT", s.idx, b)
+			return 0, err
+		}
 	}
 	rec.res = "ok"
 	s.writes = append(s.writes, rec)
@@ -686,6 +751,14 @@ func (w *c07World) runEnv(script []c07Step) {
 			if st.op == "re" {
 				if !s.closed {
 					s.readErr = c07ErrRead
+					if w.sc.fKinds {
+						// the identity of the scripted read error: 0 = the plain one
+						if c := e.Choose(1+len(c07SockErrKinds), vsched.KEnv, "read-error-identity"); c > 0 {
+							k := c07SockErrKinds[c-1]
+							s.readErr = k.mk("read")
+							w.logf("read-error fault identity %s", k.name)
+						}
+					}
 				}
 				w.logf("env re sock%d closed=%v", s.idx, s.closed)
 				continue
@@ -1163,6 +1236,16 @@ func c07Scenarios() []*c07Scn {
 		{name: "slow-dial-races-sweep", quick: q, thorough: t, fSlow: true,
 			envs:   [][]c07Step{{c07Dg(1, "x:1"), c07Sl(c07Timeout + 2*s), c07Dg(1, "x:1")}},
 			checks: []int64{9 * s}},
+		// error IDENTITY: a session with a reply and then a socket read error, where the send fault or the
+		// read error - the two errors that end a session that owns a socket - is each of: the plain
+		// error; quic-go's connection-closed errors (they unwrap to net.ErrClosed) on the send path; a
+		// *net.OpError wrapping net.ErrClosed / os.ErrDeadlineExceeded / an errno, or io.EOF, on the read
+		// path. The thorough tier (T-faults-of-every-error-identity) adds the identities of dial and
+		// socket-write errors and the datagram that starts the next session. Added after the
+		// independently seeded change C07-12 (no conn.Close() when the closing error matches net.ErrClosed)
+		{name: "reply-faults-of-every-error-identity", quick: q, thorough: t, fSend: true, fKinds: true,
+			envs:   [][]c07Step{{c07Dg(1, "x:1"), c07Rp(1), c07Re(1)}},
+			checks: []int64{s / 2}},
 		// Hook rewrites the address: writes go to the rewritten address, replies carry the original one
 		{name: "hook-rewrite", quick: q, thorough: t, hook: true, fSend: true,
 			envs:   [][]c07Step{{c07Dg(1, "x:1"), c07Rp(1), c07Dg(1, "y:2")}},
@@ -1181,6 +1264,9 @@ func c07Scenarios() []*c07Scn {
 			checks: []int64{3*s + c07Eps, 11*s/2 + c07Eps, 6 * s}},
 		{name: "T-races-with-faults", thorough: t2, twin: td, thOnly: true, fDial: true,
 			envs:   [][]c07Step{{c07Dg(1, "x:1"), c07Re(1)}, {c07Wc(1), c07Dg(1, "x:1"), c07Dg(1, "x:1")}},
+			checks: []int64{s / 2}},
+		{name: "T-faults-of-every-error-identity", thorough: t2, twin: td, thOnly: true, fDial: true, fWrite: true, fSend: true, fKinds: true,
+			envs:   [][]c07Step{{c07Dg(1, "x:1"), c07Rp(1), c07Re(1), c07Dg(1, "x:1")}},
 			checks: []int64{s / 2}},
 		{name: "T-fragment-reuse-loss", thorough: t2, twin: td4, thOnly: true, racyLoss: true, fWrite: true,
 			envs:   [][]c07Step{{c07F1(1), c07F2(1), c07Rp(1), c07Re(1), c07F1(1), c07F2(1)}},
